@@ -323,7 +323,7 @@ func (p *Program) Implementers(iface *types.Interface) []*types.Named {
 			}
 		}
 	}
-	sort.Slice(out, func(i, j int) bool { return out[i].String() < out[j].String() })
+	sort.Slice(out, func(i, j int) bool { return TStr(out[i]) < TStr(out[j]) })
 	return out
 }
 
